@@ -33,6 +33,14 @@ CHECKS = {
   "The independent peer writer is a simulated foreign node with legal-but-unusual layout choices (buggify points); carquet reads its images through three transports with whole reads and seeded histories under random CPU caps; exact def/rep levels and values against the model; files with unimplemented features must be rejected with an error.",
   "Trusted: peer writer (every file self-checked by the peer reader before carquet sees it; a mismatch is exit 2). No fault or schedule is part of this property; the simulator contributes the second party, the perturbation of I/O mode/history/CPU level, replay and shrinking.",
   "deterministic simulation: independent peer writer with buggify layout choices -> carquet reader", "7 C06"),
+ "C16": ("exploration",
+  "Public-API clauses: (a) data-page statistics written by carquet's writer, parsed by the peer reader, must bound every non-NaN value of their page, carry no NaN bound and the right null count; (b) peer-written multi-row-group files whose chunk statistics are true bounds by construction are queried through column_statistics/row_group_matches/filter_row_groups with seeded operators and probes at, next to and beyond the bounds (incl. NaN), in a random transport; verdicts judged by brute force over the model (no false negative, exact filter list, no statistics => might match).",
+  "Trusted: brute-force matcher over the model, peer writer statistics (min/max over non-NaN values, omitted when a chunk holds NaN). Not decided: the statistics builder, carquet_statistics_compare, range_overlaps, column_index_page_might_match (internal entry points no public API reaches).",
+  "deterministic simulation: predicate operations on peer-written files vs brute force over the model", "7 C16"),
+ "C17": ("exploration",
+  "Reader side: seeded ordered schema trees (depth <= 6, <= 60 nodes, all repetition labelings) emitted by the peer writer with data shredded under the true levels; leaf order, every accessor, lookup by name, node max-level accessors and the levels the column readers really use are compared with the textbook definition. Builder side: seeded add_column/add_group histories up to 400 steps (across capacity growth) with accessors checked after every step under a realloc-always-moves allocator, then written and read back.",
+  "Trusted: textbook level definition in the model, peer writer's Dremel shredding (self-checked by the peer reader). What the simulator adds beyond generation is modest (I/O mode, allocator movement, op history).",
+  "deterministic simulation: peer-written nested schemas + builder op histories vs textbook definition", "7 C17"),
 }
 def chk(pid):
     cat,text,note,tech,ref = CHECKS[pid]
